@@ -186,6 +186,8 @@ Judge(t) ==
     [] t.k = "struct" -> JStruct(t)
     [] t.k = "hex" -> JHex(t)
     [] t.k = "agl" -> JAgl(t)
+    \* the real encoder raised on a value of the codec's domain, or the real decoder raised on the encoder's output
+    [] t.k = "raised" -> "raised-in-domain:" \o t.codec
     [] OTHER -> "unknown-kind"
 
 Init == tid \in 1..NTraces /\ verdict = "pending"
